@@ -75,6 +75,8 @@ def judge_C16(mm):
 
 def judge_C03(mm):
     """Props/C03.lean (C03Spec) on the implementation's own response; 'allowed' is the harness's decision bit."""
+    if mm['case'].startswith('parse\t'):
+        return parse_not_serialised(mm)
     if mm['case'].startswith('h.serve\t'):
         # history: the model carries the configuration in force; it emits no CORS header, the implementation does
         i, m = runner.split_resp(mm['impl']), runner.split_resp(mm['model'])
@@ -215,11 +217,40 @@ def _defect(sb):
     return None
 
 
+def _unhex(x):
+    return b'' if x == '-' else bytes.fromhex(x)
+
+
+def parse_not_serialised(mm):
+    """The request-side lexer reads an origin out of a string that is not the serialisation of that origin
+    (`scheme://host` or `scheme://host:port`, IPv6 hosts in brackets): such a string then shares the fate of a real origin."""
+    f = mm['case'].split('\t')
+    if f[0] != 'parse' or not mm['impl'].startswith('some '):
+        return None
+    sb = _unhex(f[1])
+    g = mm['impl'].split(' ')
+    if len(g) < 5:
+        return None
+    scheme, host, port = _unhex(g[1]), _unhex(g[2]), int(g[4])
+    ser = scheme + b'://' + (b'[' + host + b']' if b':' in host else host) + ((b':' + str(port).encode()) if port else b'')
+    if ser != sb:
+        return ('the request-side lexer reads origin %r out of the string %r, which is not its serialisation: no pattern denotes that string, '
+                'yet it is treated like the origin' % (ser[:120], sb[:120]))
+    return None
+
+
+def judge_C01(mm):
+    return parse_not_serialised(mm)
+
+
 def judge_C13(mm):
     """Documented grammar (decidable fragment) against the implementation's verdict on a pattern string."""
     f = mm['case'].split('\t')
     if f[0] == 'parse':
         sb = b'' if f[1] == '-' else bytes.fromhex(f[1])
+        ns = parse_not_serialised(mm)
+        if ns:
+            return ns
         if _documented(sb) and b'*' not in sb and mm['impl'].startswith('none'):
             return ('a wildcard-free pattern of the documented form, presented verbatim as an Origin, is not even parsed by the '
                     'request-side lexer (so it cannot be allowed): %r (%d bytes)' % (sb[:80], len(sb)))
